@@ -702,10 +702,18 @@ func ruleNumOrder(p *Program, r *Reporter) {
 			r.Undecided(key, "-", "no built-in registered under this name")
 			continue
 		}
+		// (a one-line wrapper is judged by the implementation it shares, under
+		// the constants it passes)
+		wrapper := fn
+		fn, live := sharedImpl(fn)
+		_ = wrapper
 		args := ssa.Value(fn.Params[0])
 		// calls in fn that can reach a textual ordering
 		var risky []*ssa.Call
 		for _, b := range fn.Blocks {
+			if !live[b] {
+				continue
+			}
 			for _, ins := range b.Instrs {
 				c, ok := ins.(*ssa.Call)
 				if !ok {
@@ -737,6 +745,9 @@ func ruleNumOrder(p *Program, r *Reporter) {
 		tested := map[int64]bool{}
 		testBlocks := map[*ssa.BasicBlock]bool{}
 		for _, b := range fn.Blocks {
+			if !live[b] {
+				continue
+			}
 			iff, ok := terminator(b).(*ssa.If)
 			if !ok {
 				continue
@@ -778,7 +789,7 @@ func ruleNumOrder(p *Program, r *Reporter) {
 			b := work[len(work)-1]
 			work = work[:len(work)-1]
 			for _, s := range b.Succs {
-				if !reach[s] {
+				if !reach[s] && live[s] {
 					reach[s] = true
 					work = append(work, s)
 				}
@@ -807,15 +818,19 @@ func ruleNumOrder(p *Program, r *Reporter) {
 		if fn == nil {
 			continue
 		}
+		fn, live := sharedImpl(fn)
 		args := ssa.Value(fn.Params[0])
 		key := "built-in " + name + " returns the " + map[string]string{"min": "smaller", "max": "larger"}[name] + " argument"
 		found := false
 		for _, b := range fn.Blocks {
+			if !live[b] {
+				continue
+			}
 			iff, ok := terminator(b).(*ssa.If)
 			if !ok {
 				continue
 			}
-			c, ok := iff.Cond.(*ssa.Call)
+			c, ok := liveValue(iff.Cond, live).(*ssa.Call)
 			if !ok || c.Call.StaticCallee() != less {
 				continue
 			}
@@ -1098,4 +1113,97 @@ func tableRegistrations(p *Program, v ssa.Value) (names []string, fns []*ssa.Fun
 		}
 	}
 	return names, fns, all && found && len(names) > 0
+}
+
+// sharedImpl: a built-in that is a one-line wrapper around a shared
+// implementation — `return pickOfTwo(args, true)` — is judged by that
+// implementation under the constant arguments it passes: the function, and the
+// blocks of it that can run when its boolean parameters have those values.
+func sharedImpl(fn *ssa.Function) (*ssa.Function, map[*ssa.BasicBlock]bool) {
+	all := func(f *ssa.Function) map[*ssa.BasicBlock]bool {
+		m := map[*ssa.BasicBlock]bool{}
+		for _, b := range f.Blocks {
+			m[b] = true
+		}
+		return m
+	}
+	if len(fn.Blocks) != 1 || len(fn.Params) == 0 {
+		return fn, all(fn)
+	}
+	ret, ok := terminator(fn.Blocks[0]).(*ssa.Return)
+	if !ok || len(ret.Results) != 1 {
+		return fn, all(fn)
+	}
+	c, ok := ret.Results[0].(*ssa.Call)
+	if !ok || c.Call.StaticCallee() == nil || len(c.Call.StaticCallee().Blocks) == 0 || fnPkg(c.Call.StaticCallee()) == nil || !IsLibPath(fnPkg(c.Call.StaticCallee()).Pkg.Path()) {
+		return fn, all(fn)
+	}
+	h := c.Call.StaticCallee()
+	if len(c.Call.Args) == 0 || c.Call.Args[0] != ssa.Value(fn.Params[0]) || len(h.Params) != len(c.Call.Args) {
+		return fn, all(fn)
+	}
+	consts := map[ssa.Value]bool{}
+	for i, a := range c.Call.Args[1:] {
+		k, ok := a.(*ssa.Const)
+		if !ok || k.Value == nil || k.Value.Kind() != constant.Bool {
+			return fn, all(fn)
+		}
+		consts[h.Params[i+1]] = constant.BoolVal(k.Value)
+	}
+	// nothing else may happen in the wrapper
+	for _, ins := range fn.Blocks[0].Instrs {
+		switch ins.(type) {
+		case *ssa.Call, *ssa.Return, *ssa.DebugRef:
+		default:
+			return fn, all(fn)
+		}
+	}
+	live := map[*ssa.BasicBlock]bool{}
+	var walk func(b *ssa.BasicBlock)
+	walk = func(b *ssa.BasicBlock) {
+		if live[b] {
+			return
+		}
+		live[b] = true
+		if iff, ok := terminator(b).(*ssa.If); ok && len(b.Succs) == 2 {
+			cond, neg := iff.Cond, false
+			if u, ok := cond.(*ssa.UnOp); ok && u.Op == token.NOT {
+				cond, neg = u.X, true
+			}
+			if v, known := consts[cond]; known {
+				if v != neg {
+					walk(b.Succs[0])
+				} else {
+					walk(b.Succs[1])
+				}
+				return
+			}
+		}
+		for _, sc := range b.Succs {
+			walk(sc)
+		}
+	}
+	walk(h.Blocks[0])
+	return h, live
+}
+
+// liveValue: v, or — when v is a φ — the one value it can have given which of
+// its block's predecessors can run.
+func liveValue(v ssa.Value, live map[*ssa.BasicBlock]bool) ssa.Value {
+	phi, ok := v.(*ssa.Phi)
+	if !ok {
+		return v
+	}
+	var one ssa.Value
+	n := 0
+	for i, e := range phi.Edges {
+		if live[phi.Block().Preds[i]] {
+			one = e
+			n++
+		}
+	}
+	if n == 1 {
+		return one
+	}
+	return v
 }
